@@ -43,7 +43,7 @@ def jobs_for(ctx):
                           jvm_env=None if ctx.thorough else {"_JAVA_OPTIONS": "-XX:TieredStopAtLevel=1"}, **kw))
 
     n2 = dict(N=2, kinds=BSI + ["m"], maxmand=1, reqsets=2, reqs=2, owners=2, maxxor=2, mingroup=1, maxgroup=2)
-    n3 = dict(N=3, kinds=BSI, reqsets=1, reqs=2, owners=2, maxxor=1, mingroup=2, maxgroup=3)
+    n3 = dict(N=3, kinds=BSI, reqsets=1, reqs=2, owners=1, maxxor=1, mingroup=2, maxgroup=3)
     n3x = dict(N=3, kinds=BSI, reqsets=0, reqs=0, owners=1, maxxor=2, mingroup=2, maxgroup=3)
     if ctx.thorough:
         add("fields-shell", "fields", "shell", 12, maxfields=3)
@@ -53,7 +53,8 @@ def jobs_for(ctx):
             add(f"rules3-{fl}", "rules", fl, 3, rules=n3)
             add(f"rules3x-{fl}", "rules", fl, 3, rules=n3x)
     else:
-        add("fields-shell", "fields", "shell", 3, maxfields=2)
+        add("fields-shell", "fields", "shell", 2, maxfields=2)
+        add("fields3-shell", "fields", "shell", 24, pick=1, maxfields=3)
         add("fields-python", "fields", "python", 1, maxfields=2)
         add("rules2-python", "rules", "python", 16, pick=1, rules=n2)
         add("rules2-shell", "rules", "shell", 16, pick=1, rules=n2)
@@ -150,7 +151,7 @@ def run(ctx):
     ctx.extra["definitions_with_requires"] = n_known
     ctx.extra["requires_cases_matching_asbuilt_prediction"] = n_known - unpredicted
     if not ctx.thorough:
-        ctx.extra["quick_scope"] = "fields mode with <=2 fields; rules mode on seed-chosen shards"
+        ctx.extra["quick_scope"] = "fields mode with <=2 fields (+ one seed-chosen shard of the 3-field space); rules mode on seed-chosen shards"
     ctx.assume("judged projection: name, type, default, help, allowed values, requires, xor (+ argstr, position, sep for "
                "shell); an implicit position is compared with the original class, not with the spec")
     ctx.assume("the JSON leg (types/function replaced by placeholders) is recorded, not judged: the tutorial says the "
